@@ -138,7 +138,8 @@ def cmd_eval(a):
             rp = os.path.join(full, "result.json")
             if os.path.exists(rp):
                 prev = json.load(open(rp))
-            prev.update({f"{k}:{a.tier}": v for k, v in res.items()})
+            sd = os.environ.get("VERIF_SEED", "1")
+            prev.update({(f"{k}:{a.tier}" if sd == "1" else f"{k}:{a.tier}:seed{sd}"): v for k, v in res.items()})
             prev["verif_commit"] = sh(f"git -C {VERIF} rev-parse --short HEAD")[1].strip()
             json.dump(prev, open(rp, "w"), indent=1)
         finally:
